@@ -121,7 +121,6 @@ func (p *Process) run() int {
 	verifYield("run.afterTermCheck", p.getName())
 	if err := p.validateProcess(); err != nil {
 		log.Error().Err(err).Msgf(`Failed to run command ["%v"] for process %s`, strings.Join(p.getCommand(), `" "`), p.getName())
-		p.setExitCode(1)
 		p.onProcessEnd(types.ProcessStateError)
 		return 1
 	}
@@ -138,7 +137,6 @@ loop:
 			verifYield("run.startFailed", p.getName())
 			log.Error().Err(err).Msgf(`Failed to run command ["%v"] for process %s`, strings.Join(p.getCommand(), `" "`), p.getName())
 			p.logBuffer.Write(err.Error())
-			p.setExitCode(1)
 			p.onProcessEnd(types.ProcessStateError)
 			return 1
 		}
@@ -821,7 +819,9 @@ func (p *Process) setStateAndRun(state string, runnable func() error) error {
 
 func (p *Process) onStateChange(state string) {
 	switch state {
-	case types.ProcessStateSkipped:
+	case types.ProcessStateSkipped, types.ProcessStateError:
+		// set together with the status, i.e. only if this instance has not
+		// ended yet (a process stopped before its launch stays Completed / 0)
 		p.setExitCode(1)
 	case types.ProcessStateRestarting:
 		fallthrough
